@@ -38,6 +38,18 @@ pub fn cut_message(msg: &str) -> String {
         }
         _ => first,
     };
+    // "... conflicting bindings for <type parameter>: ..."
+    let owned2;
+    let first = match first.find(" bindings for ").and_then(|i| {
+        let rest = &first[i + 14..];
+        rest.find(": ").map(|j| (i + 14, i + 14 + j))
+    }) {
+        Some((a, b)) => {
+            owned2 = format!("{}_{}", &first[..a], &first[b..]);
+            owned2.as_str()
+        }
+        None => first,
+    };
     let mut out = String::new();
     for c in first.chars() {
         if c.is_ascii_digit() || matches!(c, '"' | '\'' | '`' | '(' | '[' | '{' | '=' | '<') {
